@@ -66,25 +66,25 @@ def marshal (fmtF : UInt64 → Option Bytes) : Nat → Heap → Id → Heap × O
         | (h1, .panic s) => (h1, .panic s)
       | .array =>
         let m := h.childMap n
-        let rec goA (h : Heap) : List Nat → List Bytes → Heap × Outcome Bytes
-          | [], acc => (h, .ok ([91] ++ intercalateBytes [44] acc.reverse ++ [93]))
-          | i :: is, acc =>
+        match foldH (fun h (i : Nat) (acc : List Bytes) =>
             match m.lookup (itoa i) with
             | none => (h, .err (errT .wrongRequest))
             | some c => match marshal fmtF fuel h c with
-              | (h1, .ok s) => goA h1 is (s :: acc)
+              | (h1, .ok s) => (h1, .ok (acc ++ [s]))
               | (h1, .err e) => (h1, .err e)
-              | (h1, .panic s) => (h1, .panic s)
-        goA h (List.range m.length) []
+              | (h1, .panic s) => (h1, .panic s)) h (List.range m.length) [] with
+        | (h1, .ok parts) => (h1, .ok ([91] ++ intercalateBytes [44] parts ++ [93]))
+        | (h1, .err e) => (h1, .err e)
+        | (h1, .panic s) => (h1, .panic s)
       | .object =>
-        let rec goO (h : Heap) : List (Bytes × Id) → List Bytes → Heap × Outcome Bytes
-          | [], acc => (h, .ok ([123] ++ intercalateBytes [44] acc.reverse ++ [125]))
-          | (k, c) :: cs, acc =>
-            match marshal fmtF fuel h c with
-            | (h1, .ok s) => goO h1 cs (([34] ++ quoteString k ++ [34, 58] ++ s) :: acc)
+        match foldH (fun h (p : Bytes × Id) (acc : List Bytes) =>
+            match marshal fmtF fuel h p.2 with
+            | (h1, .ok s) => (h1, .ok (acc ++ [[34] ++ quoteString p.1 ++ [34, 58] ++ s]))
             | (h1, .err e) => (h1, .err e)
-            | (h1, .panic s) => (h1, .panic s)
-        goO h (sortByKey (h.childMap n)) []
+            | (h1, .panic s) => (h1, .panic s)) h (sortByKey (h.childMap n)) [] with
+        | (h1, .ok parts) => (h1, .ok ([123] ++ intercalateBytes [44] parts ++ [125]))
+        | (h1, .err e) => (h1, .err e)
+        | (h1, .panic s) => (h1, .panic s)
     else if r.b1 != 0 then (h, .ok ((h.source n).getD []))
     else (h, .err (errT .unparsed))
 
